@@ -82,7 +82,7 @@ CHECKS["C13"] = {
          "params": {"quick": grid(template=[0], n=[0, 1, 2, 3, 4]) + grid(template=[1, 2, 3], n=[0, 2, 4]), "thorough": grid(template=[0], n=list(range(0, 8))) + grid(template=[1, 2, 3], n=[0, 2, 4, 6])},
          "cover": ["sections-ok"]},
         {"name": "fields", "pkg": "rfc822", "pkgname": "rfc822", "entry": "VerifFields", "files": ["zz_verif_rfc822.go"],
-         "params": {"quick": grid(n=[3, 4], fieldLen=[1]) + grid(n=[4], fieldLen=[2]), "thorough": grid(n=[3, 4, 5, 6], fieldLen=[1, 2])}, "cover": ["field-selected"]},
+         "params": {"quick": grid(n=[3, 4], fieldLen=[1]) + grid(n=[4], fieldLen=[2]), "thorough": grid(n=[3, 4, 5, 6], fieldLen=[1]) + grid(n=[4, 5, 6], fieldLen=[2])}, "cover": ["field-selected"]},
     ],
     "stubs": [],
     "outside": ["literals longer than the byte bound", "the {n} framing text produced by fmt from len(literal)", "store round trip (C09)"],
